@@ -108,6 +108,53 @@ def run(fx, R, tier):
     check_frame_completeness(fx, R, fa)
 
 
+def height_flow_fact(fx, f):
+    """Data flow of the point's altitude in toENU(geodetic): the height displaces the point along ITS OWN ellipsoid normal, which only the geodetic-to-ECEF map does.  When the point object never reaches
+    toECEF() with its altitude (it is sliced to its planar base, or rebuilt with another altitude) and the altitude enters the result through plain arithmetic on a local coordinate instead, the height is applied
+    along the ANCHOR's up axis: the two normals differ by distance / earth radius, so the result is off by about distance * height difference / 6.4e6 m."""
+    if not f.get('params'):
+        return None
+    pid, pname = f['params'][0]['id'], f['params'][0]['name']
+    whole_to_ecef = False
+    alt_in_arith = None
+    sliced = False
+
+    def visit(n, anc):
+        nonlocal whole_to_ecef, alt_in_arith, sliced
+        if not isinstance(n, dict):
+            return
+        if n.get('k') == 'Ref' and n.get('id') == pid:
+            # how is the whole object used?
+            chain = [a for a in anc if a.get('k') not in ('DefaultArg',)]
+            par = chain[-1] if chain else None
+            par2 = chain[-2] if len(chain) > 1 else None
+            if par is not None and par.get('k') == 'Member' and par.get('name') == 'altitude':
+                if not any(a.get('k') in ('MCall', 'Call') and (a.get('m') or a.get('fn') or '').split('::')[-1] in ('toECEF', 'makeGeodeticCoordinates') for a in chain):
+                    if any(a.get('k') in ('Bin', 'Op') and a.get('op') in ('+', '-', '+=', '-=') for a in chain):
+                        alt_in_arith = alt_in_arith or next(a for a in reversed(chain) if a.get('k') in ('Bin', 'Op') and a.get('op') in ('+', '-', '+=', '-='))
+            elif par is not None and par.get('k') == 'Cast' and 'WGS84Coordinates' in ((par.get('t') or {}).get('s') or '') and 'Geodetic' not in ((par.get('t') or {}).get('s') or ''):
+                sliced = True
+            elif any(a.get('k') in ('MCall', 'Call') and (a.get('m') or a.get('fn') or '').split('::')[-1] in ('toECEF', 'setAnchor', 'toENU') for a in chain[-3:]) and not (par is not None and par.get('k') == 'Member'):
+                inner = next(a for a in reversed(chain) if a.get('k') in ('MCall', 'Call'))
+                if (inner.get('m') or inner.get('fn') or '').split('::')[-1] == 'toECEF':
+                    whole_to_ecef = True
+        for k_, v_ in n.items():
+            if k_ in ('t', 'rt'):
+                continue
+            if isinstance(v_, dict):
+                visit(v_, anc + [n])
+            elif isinstance(v_, list):
+                for x_ in v_:
+                    if isinstance(x_, dict):
+                        visit(x_, anc + [n])
+    visit(f.get('body'), [])
+    if alt_in_arith is not None and not whole_to_ecef:
+        return ('the altitude of the point never reaches ECEFConverter::toECEF() in this overload (%s) and enters the result through `%s` instead: the height difference is added along the up axis of the ANCHOR '
+                'frame, while a point h above the ellipsoid lies along the normal AT THE POINT; the two directions differ by distance / 6.4e6, so a point 60 km away and 5 km higher is off by about 46 m - the '
+                'local and the geodetic conversions are no longer inverses to 1 mm within 100 km' % ('the point is sliced to its planar base first' if sliced else 'it is not handed over whole', pp(alt_in_arith)[:110]))
+    return None
+
+
 def check_frame_completeness(fx, R, fa):
     """E8: re-anchoring must FULLY replace the frame.  The frame is stored as a homogeneous transform; the parts of it that setAnchor() does not write (when it writes through translation() / linear()
     only: the bottom row) keep whatever another method left there - so no other method may write the transform through its raw matrix, and a whole-object assignment must assign a transform."""
@@ -469,6 +516,10 @@ def check_protocol(fx, R, fa, fr):
         R.undecided('E4', 'ENUConverter::toENU(geodetic)', 'overload not found')
         return
     R.used(fg[0])
+    hf = height_flow_fact(fx, fg[0])
+    if hf:
+        R.violated('E4', 'ENUConverter::toENU(geodetic):height-path', hf, fx.rel(fg[0]['loc']), 'E-ALG')
+        return
     try:
         ps = sym.Reader(fx, call_hook=geo.enu_hook).run(fg[0])
     except sym.Unsupported as u:
